@@ -159,14 +159,23 @@ def reloadOp (j : Json) : Json :=
     | .request r ct => Json.mkObj [("request", resJ r), ("ct", ct)]
     | .getTemplate r => Json.mkObj [("get", resJ r)]))]
 
-/-- manager.Parse over an abstract walk: {"suffix":s,"entries":[{"path":p,"dir":b,"walkErr":b,"openErr":b,"loadErr":b,"defines":[…]}]} -/
+/-- one element of `"defines"`: a JSON string is a `define` with that name, anything else (`null`) is a `define` whose
+    name fails to evaluate -/
+def defineOfJson : Json → Option String
+  | .str s => some s
+  | _ => none
+
+/-- manager.Parse over an abstract walk:
+    {"suffix":s,"entries":[{"path":p,"dir":b,"walkErr":b,"openErr":b,"loadErr":b,"defines":[name | null, …]}]}
+    (`"defines"`: pre-order list of the `define`s of the file; a string = its name, `null` = the name fails to evaluate;
+    a missing or non-array `"defines"` is the empty list) -/
 def fsparseOp (j : Json) : Json :=
   let suffix := (str? j "suffix").getD ""
   let entries := ((arr? j "entries").getD #[]).toList.map fun e =>
     ({ path := (str? e "path").getD "", isDir := (bool? e "dir").getD false, walkErr := (bool? e "walkErr").getD false,
        openErr := (bool? e "openErr").getD false,
        content := { loadErr := (bool? e "loadErr").getD false,
-                    defines := ((e.getObjValAs? (Array String) "defines").toOption.getD #[]).toList } } : FP.Entry)
+                    defines := ((arr? e "defines").getD #[]).toList.map defineOfJson } } : FP.Entry)
   let (r, st) := FP.run (fun p => p.endsWith suffix) entries
   let rs : String := match r with
     | .ok => "ok"
